@@ -69,3 +69,55 @@ def val_default_cluster(k):
 @m.memento_function(cluster="c", version="1")
 def bat(p, k):
     return rt.produce("bat", k)
+
+
+def _part_body(i):
+    from vlib import values
+    spec = rt.PART_LEVELS[i]
+    rt._log.append(("p%d" % i, {}))
+    own = {k: values.build(v) for k, v in spec["own"].items()}
+    if spec["staging"] in ("impart", "impart_dd"):
+        from twosigma.memento.partition import InMemoryPartition
+        if spec["staging"] == "impart_dd":
+            # the mapping of the partition module's own docstring example
+            import collections
+            dd = collections.defaultdict(lambda: [])
+            dd.update(own)
+            own = dd
+        part = InMemoryPartition(own)
+    else:
+        from twosigma.memento.storage_filesystem import OnDiskPartition
+        part = OnDiskPartition()
+        for k, v in own.items():
+            part[k] = v
+    if i > 0:
+        part._merge_parent = PARTS[i - 1]()
+    return part
+
+
+@m.memento_function(cluster="c", version="1")
+def p0():
+    return _part_body(0)
+
+
+@m.memento_function(cluster="c", version="1")
+def p1():
+    return _part_body(1)
+
+
+@m.memento_function(cluster="c", version="1")
+def p2():
+    return _part_body(2)
+
+
+@m.memento_function(cluster="c", version="1")
+def p3():
+    return _part_body(3)
+
+
+@m.memento_function(cluster="c", version="1")
+def p4():
+    return _part_body(4)
+
+
+PARTS = [p0, p1, p2, p3, p4]
